@@ -45,7 +45,10 @@ static void vf_grid_bytes(const char *name, unsigned char *dst, size_t n) {
 #define VF_NATIVE_MAIN
 #define VF_IS_NATIVE 1
 /* run one case: VF_GRID_RUN(entry) after filling vf_grid_tab / vf_grid_n */
-#define VF_GRID_RUN(entry) do { vf_grid_skipped = 0; if(!setjmp(vf_grid_jmp)) { entry(); } if(!vf_grid_skipped) vf_grid_evaluated++; } while(0)
+#include <signal.h>
+#include <unistd.h>
+static void vf_grid_alarm(int sig) { char d_[300]; (void)sig; vf_grid_describe(d_, sizeof(d_)); printf("VF-GRID: FAIL the call does not terminate within 10 s [%s]\nVF-GRID: evaluated %llu failed %llu\n", d_, vf_grid_evaluated + 1, vf_grid_failed + 1); fflush(stdout); _exit(1); }
+#define VF_GRID_RUN(entry) do { vf_grid_skipped = 0; signal(SIGALRM, vf_grid_alarm); alarm(10); if(!setjmp(vf_grid_jmp)) { entry(); } alarm(0); if(!vf_grid_skipped) vf_grid_evaluated++; } while(0)
 #define VF_GRID_SUMMARY() (printf("%s%s%sVF-GRID: evaluated %llu failed %llu\n", vf_grid_failed ? "VF-GRID: FAIL " : "", vf_grid_failed ? vf_grid_first : "", vf_grid_failed ? "\n" : "", vf_grid_evaluated, vf_grid_failed), fflush(stdout), vf_grid_failed ? 1 : 0)
 #elif defined(VF_NATIVE)
 #include <stdio.h>
